@@ -59,12 +59,13 @@ func encOf(v any) string {
 }
 
 // purityCase: every call below must leave *vc deep-equal to a fresh decode of the same document.
-func (d *drv) purityCase(in *Input, rep *common.Report) {
+func (d *drv) purityCase(in *Input, rep *common.Report) (posts []*Node) {
 	raw := []byte(in.Doc)
 	var ref verifiable.W3CCredential
 	if json.Unmarshal(raw, &ref) != nil {
-		return
+		return nil
 	}
+	seenPost := map[string]bool{}
 	refEnc := encOf(&ref)
 	fresh := func() *verifiable.W3CCredential {
 		var vc verifiable.W3CCredential
@@ -74,6 +75,13 @@ func (d *drv) purityCase(in *Input, rep *common.Report) {
 	check := func(vc *verifiable.W3CCredential, class, op, outcome string) {
 		rep.Evaluations++
 		rep.Count("purity:" + class)
+		// what the credential encodes to after the call goes to the Coq model as well
+		if e := encOf(vc); !seenPost[e] && len(posts) < 4 {
+			seenPost[e] = true
+			if n, err := Parse([]byte(e)); err == nil {
+				posts = append(posts, n)
+			}
+		}
 		if deepEq(reflect.ValueOf(vc).Elem(), reflect.ValueOf(&ref).Elem()) && encOf(vc) == refEnc {
 			return
 		}
@@ -157,18 +165,21 @@ func (d *drv) purityCase(in *Input, rep *common.Report) {
 			}
 		}
 	}
+	return posts
 }
 
 // reuseCase: decode Prev, then Doc, into the same variable; compare with a fresh decode of Doc.
-func (d *drv) reuseCase(in *Input, rep *common.Report) {
+func (d *drv) reuseCase(in *Input, rep *common.Report) (rec *caseRec) {
 	rep.Evaluations++
 	rep.Count("reuse:" + in.Kind)
-	if pv := guard(func() { d.reuseCaseInner(in, rep) }); pv != nil {
+	if pv := guard(func() { rec = d.reuseCaseInner(in, rep) }); pv != nil {
 		rep.Fail("c14-panic", fmt.Sprint("panic while decoding into a re-used value: ", pv), in)
+		return nil
 	}
+	return rec
 }
 
-func (d *drv) reuseCaseInner(in *Input, rep *common.Report) {
+func (d *drv) reuseCaseInner(in *Input, rep *common.Report) (rec *caseRec) {
 	prev, doc := []byte(in.Prev), []byte(in.Doc)
 	switch in.Kind {
 	case "reuse-auth":
@@ -183,6 +194,14 @@ func (d *drv) reuseCaseInner(in *Input, rep *common.Report) {
 		}
 		if e1 != nil {
 			return
+		}
+		// the same pair of lists goes to the Coq model (State.reuse_auths)
+		if pn, err := Parse(prev); err == nil {
+			if dn, err := Parse(doc); err == nil {
+				if en, err := Parse([]byte(encOf(reused))); err == nil {
+					rec = &caseRec{in: in, doc: dn, o: &obs{kinds: authKinds(reused)}, reuse: true, prev: pn, enc: en, kinds: authKinds(reused)}
+				}
+			}
 		}
 		if strings.Join(authKinds(reused), ",") != strings.Join(authKinds(fresh), ",") || encOf(reused) != encOf(fresh) {
 			rep.Fail("c14-reuse-auth-differs", fmt.Sprintf("[]Authentication decoded into a re-used slice: entries %v encode as %s; into a fresh slice: %v, %s",
@@ -242,6 +261,7 @@ func (d *drv) reuseCaseInner(in *Input, rep *common.Report) {
 			rep.Count("reuse:proofs-accumulate-in-a-reused-credential")
 		}
 	}
+	return rec
 }
 
 func clip(s string) string {
